@@ -23,7 +23,7 @@ func ruleFreshWinsOverCache(c *Ctx) {
 		var names []types.Object
 		for _, f := range u.Type.Params.List {
 			for _, nm := range f.Names {
-				names = append(names, u.Info.ObjectOf(nm))
+				names = append(names, objOf(u.Info, nm))
 			}
 		}
 		var order []int
